@@ -65,26 +65,34 @@ def run(path, rlimit=30, seed=None, threads=16, timeout=900, extra=None):
                 wall=time.time() - t0, raw_err=err if not diags and rc != 0 else "")
 
 
-def fn_ranges(text, fn_names):
-    """line ranges of `fn name` items in generated text (first brace-balanced body)."""
+def fn_ranges(text, fns):
+    """line ranges of the extracted fn items in the generated text. `fns` is a list of names or of (name, head) pairs;
+    with a head (the emitted signature+clauses text) the item is located exactly, otherwise by the first `fn name`."""
     res = []
-    for name in fn_names:
-        for m in re.finditer(r"(?m)^(?:\s*(?:pub |unsafe |proof |spec |exec |open |closed )*)fn\s+%s\b" % re.escape(name), text):
-            start = m.start()
-            ob = text.find("{", m.end())
-            # body brace: first '{' that starts a line or follows clauses; use balanced scan w/ lexer
-            sub = text[m.start():]
-            toks = lex.code_tokens(sub)
-            # find first '{' at paren depth 0 that is followed by balanced close, skipping clause exprs is hard;
-            # extracted fns always put the body `{` at the start of a line.
-            mm = re.search(r"(?m)^\{", sub)
-            if not mm:
+    for f in fns:
+        name, head = (f, None) if isinstance(f, str) else f
+        start = None
+        if head:
+            i = text.find(head)
+            if i >= 0:
+                start = i
+        if start is None:
+            m = re.search(r"(?m)^(?:\s*(?:pub |unsafe |proof |spec |exec |open |closed )*)fn\s+%s\b" % re.escape(name), text)
+            if not m:
                 continue
-            bo = mm.start()
+            start = m.start()
+        sub = text[start:]
+        mm = re.search(r"(?m)^\{", sub)
+        if not mm:
+            continue
+        toks = lex.code_tokens(sub)
+        bo = mm.start()
+        try:
             ti = next(i for i, t in enumerate(toks) if t[1] == bo)
             ce = toks[lex.match_close(sub, toks, ti)][2]
-            res.append((name, text.count("\n", 0, start) + 1, text.count("\n", 0, start + ce) + 1))
-            break
+        except (StopIteration, lex.LexError):
+            continue
+        res.append((name, text.count("\n", 0, start) + 1, text.count("\n", 0, start + ce) + 1))
     return res
 
 
